@@ -18,7 +18,7 @@ from sdc11073.xml_types import isoduration, mex_types, pm_types
 from sdc11073.xml_types import xml_structure as xs
 
 LETTERS = 'abcXYZ019_-.'
-EXOTIC = ['ä', 'ß', '€', '漢', '<', '&', '"', "'", '>', ' ', '  ', '\t', '\n', ';', ':', '/', '%', '#', '\U0001f600']
+EXOTIC = ['\u00e4', '\u00df', '\u20ac', '\u6f22', '<', '&', '"', "'", '>', ' ', '  ', '\t', '\n', ';', ':', '/', '%', '#', '\U0001f600']
 NS_POOL = [X.NSMAP['dom'], X.NSMAP['msg'], X.NSMAP['sdc'], X.NSMAP['mdpws'], X.NSMAP['dpws'], X.NSMAP['wsd']]
 
 
